@@ -51,6 +51,9 @@ class C07(Prop):
         for m in ('lin22b', 'lin-lin', 'conv', 'nb-b') if tier == 'quick' else MODELS:
             for mode in ('const', 'none'):
                 out.append({'harness': 'step', 'model': m, 'mode': mode})
+        for m in ('lin21', 'nb-b') if tier == 'quick' else ('lin21', 'nb-b', 'lin-lin', 'conv-lin'):
+            for prediv in (False, True):
+                out.append({'harness': 'step', 'model': m, 'mode': 'const', 'method': 'eigen', 'prediv': prediv})
         out.append({'harness': 'bound-lemma'})
         return out
 
@@ -85,7 +88,10 @@ class C07(Prop):
             damping = eng.fresh_real('damping')
             eng.assume(damping > 0, check=False)
         try:
-            pre = P.KFACPreconditioner(model, lr=lr_arg, kl_clip=kl_arg, compute_method=ComputeMethod.INVERSE,
+            eigen = cfg.get('method') == 'eigen'
+            pre = P.KFACPreconditioner(model, lr=lr_arg, kl_clip=kl_arg,
+                                       compute_method=ComputeMethod.EIGEN if eigen else ComputeMethod.INVERSE,
+                                       compute_eigenvalue_outer_product=bool(cfg.get('prediv')),
                                        damping=damping, inv_update_steps=1)
         except (TypeError, ValueError) as e:
             eng.oblige('kl_clip-value-accepted-by-constructor', False,
@@ -123,15 +129,22 @@ class C07(Prop):
             except Exception as e:  # noqa: BLE001
                 eng.oblige('no-exception-from-step', False, info={'error': f'{type(e).__name__}: {e}'[:160]})
                 return
-            log = [c for c in H.linalg_log() if c['fn'] == 'inv']
+            log = [c for c in H.linalg_log() if c['fn'] == ('eigh' if eigen else 'inv')]
             eng.oblige('two-inverses-per-layer', len(log) == 2 * len(specs))
             if len(log) != 2 * len(specs):
                 return
             # step() visits layers in reverse registration order: A then G
             for i in range(len(specs)):
                 j = len(specs) - 1 - i
-                ainv, ginv = log[2 * j]['out'], log[2 * j + 1]['out']
-                Vs.append(O.mm(O.mm(ginv, Ds[i]), ainv))
+                if not eigen:
+                    ainv, ginv = log[2 * j]['out'], log[2 * j + 1]['out']
+                    Vs.append(O.mm(O.mm(ginv, Ds[i]), ainv))
+                else:
+                    (da, qa), (dg, qg) = log[2 * j]['out'], log[2 * j + 1]['out']
+                    v1 = O.mm(O.mm(O.T(qg), Ds[i]), qa)
+                    v2 = [[v1[a][b] / (O.pos(dg[a]) * O.pos(da[b]) + damping) for b in range(len(da))]
+                          for a in range(len(dg))]
+                    Vs.append(O.mm(O.mm(qg, v2), O.T(qa)))
         eng.witness('clipping executed')
         finals = [kfh.get_combined(m, spec) for m, spec in zip(mods, specs)]
         s = 0
@@ -151,8 +164,14 @@ class C07(Prop):
             else:
                 eng.oblige('one-square-root-per-step', len(calls) == 1)
                 arg, r = calls[-1]
-                eng.oblige('zero-inner-product-gives-nu=1-not-a-division', s != 0)
-                eng.oblige_eq('sqrt-argument-is-kl/|sum<V,D>*lr^2|', arg, kl / O.sabs(s))
+                if eng.abs_log:
+                    # cheap decisive identities first
+                    inner, outer = eng.abs_log[-1]
+                    eng.oblige_eq('sqrt-argument-is-kl/|sum<V,D>*lr^2|', inner, s)
+                    eng.oblige_eq('sqrt-argument-composition', arg, kl / outer)
+                else:
+                    eng.oblige('zero-inner-product-gives-nu=1-not-a-division', s != 0)
+                    eng.oblige_eq('sqrt-argument-is-kl/|sum<V,D>*lr^2|', arg, kl / O.sabs(s))
                 nu = r if bool(r < 1) else 1   # forced by the path condition
             eng.oblige_all_eq('final-gradients-are-nu-times-V-with-one-shared-nu',
                               [(f, nu * v) for F, V in zip(finals, Vs) for f, v in O.pairs(F, V)])
